@@ -120,7 +120,8 @@ def numAmount (j : Json) : Json :=
   let n := numberOf (jget j "n")
   let raw := G.render n
   let q := Num.quantity n.neg raw
-  let model := Json.mkObj [("raw", hx raw), ("q", match q with | some d => decJ d | none => .null)]
+  -- `raw` is reported only when an amount was parsed
+  let model := Json.mkObj [("raw", if q.isSome then hx raw else .null), ("q", match q with | some d => decJ d | none => .null)]
   let dom := G.wf n && !G.shapeA n
   let impl := jget j "impl"
   let implQ : Option Rat := if jhas impl "q" then some (Dec.toRat (decOf (jget impl "q"))) else none
